@@ -122,6 +122,25 @@ def handleC20 (op : String) (args : List Sexp) : Option Ans :=
   | "oracle-rt-bytes-full", [b] => do
     let b ← toBytes? b
     pure (rtBytesOracle b)
+  -- the request carries the value and its encoding by the harness' own JVMS tables (only sent inside that encoder's
+  -- domain): what the model writes for the value is exactly that encoding
+  | "oracle-write-is-jvms", [v, b] => do
+    let v ← valFrom v
+    let b ← toBytes? b
+    if !typedV env root v then none else
+    pure (match writeV env root v with
+      | some b' => if b' == b then .ok (tag "pass") else failAns "bytes-differ"
+      | none => failAns "write-panics")
+  -- ... and (sent when the pool names every attribute) reading that encoding gives the value back and consumes it all
+  | "oracle-read-jvms", [v, b] => do
+    let v ← valFrom v
+    let b ← toBytes? b
+    if !typedV env root v then none else
+    pure (match readClass b with
+      | .ok (v', rest) => if v' == v && rest.isEmpty then .ok (tag "pass") else failAns "value-differs"
+      | .err => failAns "read-err"
+      | .panic => failAns "read-panics"
+      | .fuel => .skip "fuel")
   | "oracle-jvms-full", [v] => do
     let v ← valFrom v
     if !typedV env root v then none else
